@@ -203,6 +203,14 @@ DEGENERATE = [
     ('locals-conditional', 'def f(c):\n    if c:\n        locals = 1\n    return locals()\n'), ('locals-rebound', 'locals = dict\nlocals()\n'),
     ('match', 'match x:\n    case 1:\n        y = 1\n    case [a, b]:\n        y = a\ny\n'), ('type-params', 'def f[T](x: T) -> T:\n    return x\nf\n'),
     ('except-star', 'try:\n    pass\nexcept* ValueError as e:\n    e\n'), ('walrus-comp', '[y := 1, y]\ny\n'),
+    ('starred-nested-target', 'a, *(b, c) = 1, 2, 3\nb\nfor x, *(y, z) in [(1, 2, 3)]:\n    y\n'), ('starred-attr-target', 'class A: pass\no = A()\no.a, *o.b = 1, 2\no.b\n'),
+    ('conditional-base', 'import os\nif os:\n    B = object\nelse:\n    B = dict\nclass A(B):\n    def f(self):\n        self.q = 1\nA().x\nA.y\nA().f\n'),
+    ('conditional-class', 'import os\nif os:\n    class A:\n        p = 1\nelse:\n    class A:\n        q = 2\nA().p\nA.q\nclass C(A): pass\nC().p\n'),
+    ('conditional-func', 'import os\nif os:\n    def f(): return 1\nelse:\n    f = len\nf().real\nf.x\n'),
+    ('type-comment-signature', 'def f(a, b):\n    # type: (int, str) -> bool\n    return a\nx = []  # type: list[int]\nf\n'),
+    ('type-comment-prose', 'x = 1\nif x:\n    # type: 0 is a circle, 1 is a square\n    y = 2\ny\n'),
+    ('type-comment-orphan', '    # type: (int) -> int\nx = 1\n# type: ignore\nx\n'),
+    ('type-comment-in-call', 'f = print\nf(1,  # type: int\n  2)\nf\n'),
     ('builtin-cursor', 'len\nprint\nTrue\n__name__\n'), ('super-call', 'class A(dict):\n    def f(self):\n        super().f\n        super(A, self).g\nsuper().x\n'),
     ('runtime-class-calls', 'import collections, threading, io\ncollections.OrderedDict().keys\nthreading.Thread().start\nio.StringIO().read\nmemoryview().x\nproperty().fget\nrange().start\nslice().x\ntype().x\n'), ('literal-attr', '"".join\n(1).real\n[].append\n{}.get\n'),
     ('compiled-module', 'import itertools, math, sys\nitertools.chain\nmath.pi\nsys.path\n'),
@@ -226,6 +234,8 @@ CYCLIC_PROJECTS = {
                           'x': 'from pa import va\nva\nva.x\nimport pb\npb.vb.y\n'},
     'inherit-cycle-across-modules': {'pa.py': 'from pb import B\nclass A(B):\n    def fa(self): pass\n', 'pb.py': 'import pa\nclass B(pa.A):\n    def fb(self): pass\n',
                                      'x': 'from pa import A\nA().fb\nA().\nimport pb\npb.B().fa\n'},
+    'from-import-pure-cycle': {'pa.py': 'from pb import x\n', 'pb.py': 'from pa import x\n', 'x': 'from pa import x\nx\nx.y\nimport pa\npa.x\n'},
+    'from-import-alias-cycle': {'pa.py': 'from pb import y as x\n', 'pb.py': 'from pa import x as y\nclass K(y): pass\n', 'x': 'from pa import x\nx\nx.y\nfrom pb import K\nK().z\n'},
     'module-imports-itself': {'pa.py': 'import pa\nfrom pa import *\nv = pa.v\n', 'x': 'import pa\npa.v\npa.pa.pa.v\nfrom pa import v\nv.x\n'},
     'package-init-cycle': {'pk2/__init__.py': 'from .m import *\nfrom . import m\n', 'pk2/m.py': 'from . import *\nfrom pk2 import m\nw = 1\n',
                            'x': 'import pk2\npk2.m.w\nfrom pk2 import *\nw\nm\n'},
@@ -376,6 +386,29 @@ def unit_file(arg):
     return part
 
 
+def unit_file_typing(arg):
+    """typing-state mutations (trailing dot, deleted line, cut file) of a real file: lint + one cursor each"""
+    path, chunk, nchunks = arg
+    part = Part()
+    text = open(path, encoding='utf-8').read()
+    root = os.path.dirname(os.path.dirname(path)) if path.startswith(REPO) else '/nonexistent-c08'
+    P = Project([root])
+    n = 0
+    for label, t, cursors in typing_states(text):
+        if label == 'line-cut':
+            continue
+        n += 1
+        if n % nchunks != chunk:
+            continue
+        part.count('evaluations')
+        part.count('typing_state_texts')
+        for sig, what, wit in run_text(P, t, path, '%s typing state %s' % (os.path.basename(path), label), part, cursors,
+                                       {'kind': 'text', 'text': t, 'fn': path, 'root': root}):
+            part.violation(sig, what, wit)
+    part.outcome(('file-typing', path, chunk))
+    return part
+
+
 def _dispatch(u):
     return u[0](u[1])
 
@@ -414,6 +447,12 @@ def run(ctx):
         n = max(1, os.path.getsize(f) // (1500 if mode == 'all' else 40000))
         for ch in range(n):
             units.append((unit_file, (f, mode, ch, n)))
+    for i, f in enumerate(repo):
+        if ctx.quick and i >= 7:
+            break
+        n = max(1, os.path.getsize(f) // 1200)
+        for ch in range(n):
+            units.append((unit_file_typing, (f, ch, n)))
     for f in (corpus.stdlib_subset() if ctx.quick else corpus.stdlib_files()):
         units.append((unit_file, (f, 'lint', 0, 1)))
     if not ctx.quick:
